@@ -98,7 +98,8 @@ def response_case(ctx, S, rng):
     parity = int(rng.choice([0, 1]))
     k = int(rng.integers(1, 41))
     red = gens.phases(rng, k)[0]
-    avals = [float(rng.uniform(-1, 1)), float(rng.choice([1.0, -1.0, 0.0, 0.3]))]
+    near = lambda: float(rng.choice([1, -1])) * (1.0 - 10.0 ** float(rng.uniform(-7, -2)))   # close to, not at, an end point
+    avals = [float(rng.uniform(-1, 1)), float(rng.choice([1.0, -1.0, 0.0, 0.3])), near()]
     with core.quiet():
         p = S.SymmetricQSPProtocol(reduced_phases=red, parity=parity)
         U = p.gen_unitary(np.array(avals))
@@ -139,7 +140,7 @@ def history_response_case(ctx, S, rng):
     trace = [("init:" + form, red)]
     for step in range(steps):
         obs = str(rng.choice(["re", "im", "unitary", "jac", "none"]))
-        a = float(rng.choice([float(rng.uniform(-1, 1)), 1.0, -1.0, 0.0]))
+        a = float(rng.choice([float(rng.uniform(-1, 1)), 1.0, -1.0, 0.0, 1.0 - 10.0 ** float(rng.uniform(-7, -2)), -1.0 + 10.0 ** float(rng.uniform(-7, -2))]))
         trace.append((obs, a))
         full = pl(d.ask("sym.hist %d %s" % (parity, rl(F(x) for x in red))).split()[0])
         n = len(full) - 1
